@@ -119,6 +119,16 @@ def _nested_strref(prop, v):
     return (v.get("kind") in ("wrapped-does-not-build", "not-transparent") and last == "strref" and pos in ("coll", "mapval", "tuple", "union", "union_sibling", "pair"))
 
 
+@classifier("typing-extensions-alias-unrecognised")
+def _te_alias(prop, v):
+    """inspection.istypealiastype tests compat.TypeAliasType only (typing.TypeAliasType on 3.12+); an alias built with a DISTINCT
+    typing_extensions.TypeAliasType class is taken for an ordinary type and its routine raises (TypeError 'Type alias is not callable', AttributeError, ...) where the plain type converts; a wrapped
+    routine that RETURNS something else is not covered by this finding."""
+    return (v.get("kind") == "alias-spelling-not-transparent" and v.get("alias_class") == "typing_extensions.TypeAliasType"
+            and v.get("distinct_from_typing") is True and str(v.get("plain", "")).startswith("('ok'")
+            and str(v.get("wrapped", "")).startswith("('raised', "))  # TypeError / AttributeError / ... by what the alias object is mistaken for
+
+
 @classifier("unqualified-string-reference-cached")
 def _strref_cache(prop, v):
     """unmarshaller('Name') / _resolve_module_name are memoised on the bare string, so the same unqualified reference
